@@ -42,7 +42,9 @@ logical bits; a write at position p changes exactly [p, p+nbytes).
 from __future__ import annotations
 
 import io
+import hashlib
 import itertools
+import math
 import os
 import re
 import struct
@@ -151,6 +153,11 @@ THEOREMS = [
     "IrVerif.PyTensor.C04_pytensor_int_depth",
     "IrVerif.PyTensor.C04_pytensor_errors",
     "IrVerif.PyTensor.C04_pytensor_string",
+    "IrVerif.PyTensor.C04_pytensor_f8_total",
+    "IrVerif.PyTensor.C04_pytensor_f8_roundtrip",
+    "IrVerif.PyTensor.C04_pytensor_f8_sign",
+    "IrVerif.PyTensor.C04_pytensor_f8_agree",
+    "IrVerif.PyTensor.C04_ctor_accepts",
 ]
 ASSUMPTIONS = [
     "elements are modelled as bit patterns; numeric meaning of floats (NaN != NaN) is not modelled",
@@ -180,14 +187,21 @@ ASSUMPTIONS = [
     "every generated strided array (strided_constructor_check_holds=..., strided_nonempty_storage=...). Still a hypothesis: that "
     "DERIVED views (transpose / slice / flip / broadcast_to of an in-bounds array) stay in bounds -- numpy's own invariant, not "
     "modelled view operation by view operation -- and a non-empty buffer (numpy accepts out-of-bounds strides over an EMPTY buffer, "
-    "observation D383, witness theorem C04_strided_npcheck_empty_witness). BOOL memory bytes other than 0/1 are not generated",
+    "observation D383, witness theorem C04_strided_npcheck_empty_witness). BOOL memory bytes other than 0/1 are not generated in the STRIDED stream (a by-value copy of a strided bool array normalises them); the logical-tensor stream places all 256 byte values (observation D388)",
     "ir.tensor on plain Python data (Model/PyTensor.lean, second deepening round): values are trees of None / bool / int / float "
     "(binary64 bit pattern) / complex / str / bytes scalars in lists and tuples; numpy's shape discovery, dtype discovery and "
     "scalar conversion (numpy ints: must fit; ml_dtypes 2/4-bit ints: wrap; binary16/32/64 and bfloat16: round to nearest even with "
     "the double roundings numpy / ml_dtypes perform; complex64/128) are MODELLED and compared bit for bit on every run, not verified. "
-    "Not modelled (the driver answers `unmodelled`, counted as pyt_unmodelled_conversion): conversion INTO the float8 / float4 types, "
-    "None and text scalars converted into numeric dtypes. Not generated: numpy scalars inside lists, bytearray / memoryview / range "
-    "values, NaNs with a payload, nesting deeper than numpy's limit. C04_pytensor_agree assumes well-formed scalars (64-bit patterns; "
+    "Third deepening round: conversion INTO FLOAT8E4M3FN / E4M3FNUZ / E5M2 / E5M2FNUZ / E8M0 / FLOAT4E2M1 is modelled (`encF8`: one "
+    "round-to-nearest-even from binary64, ints through float32, per-type overflow / infinity / NaN / signed-zero rules) and compared "
+    "with the installed ml_dtypes through ir.tensor on ALL 65,536 binary16 values per type plus thresholds and random binary32 / "
+    "binary64 patterns (check_f8_tables; NaN payloads included there, the result does not depend on them); the value specification "
+    "`decF8` of C04_pytensor_f8_roundtrip is compared with ml_dtypes' decoding of all patterns. None converts to NaN / False or raises, "
+    "text converts to its truth value for BOOL and raises TypeError for every ml_dtypes type. Observation D384 (ml_dtypes, not onnx_ir): "
+    "float8_e8m0fnu(x) for x in [1.5 * 2^128, 2^129) wraps to 0x00 (2^-127) instead of NaN; transcribed, counted. "
+    "Not modelled (the driver answers `unmodelled`, counted as pyt_unmodelled_conversion): text PARSED into the numpy int / float / "
+    "complex types (np.array('1.5', dtype=float32)). Not generated: numpy scalars inside lists, bytearray / memoryview / range "
+    "values, NaNs with a payload into binary16/32/64/bfloat16/complex, nesting deeper than numpy's limit. C04_pytensor_agree assumes well-formed scalars (64-bit patterns; "
     "decidable, evaluated: pyt_hyp_leaves_wf=...). Observations, not findings: D381 (float default depends on the nesting depth; "
     "theorem C04_pytensor_float_depth), D382 (None / mixed text+number / ints beyond 64 bits give a Tensor that reports STRING over an "
     "object or fixed-width text array: compared model-vs-code only, counted as pyt_degenerate_string_tensor)",
@@ -604,7 +618,11 @@ def build_reprs(ir, d, dims, xs, idx, workdir, torch_ok, item_extra=None):
         # non-contiguous storage: a transposed Fortran-ordered buffer with the same logical content
         nc = np.asfortranarray(native)
         add("array-fortran", lambda: ir.Tensor(nc, dtype=d), {"k": "array", "d": code, "dims": dims, "elems": units_of(nc)})
-    if dims == []:
+    # BOOL storage bytes other than 0/1: onnx_ir passes the byte through in every representation; two forms are left out
+    # because a LIBRARY copies the element by value before onnx_ir sees it (numpy's scalar extraction, torch's
+    # .contiguous() of a strided bool tensor both write 0x01) -- observation D388, counted by the caller
+    noncanon_bool = nm == "BOOL" and any(int(x) > 1 for x in xs)
+    if dims == [] and not noncanon_bool:
         sc = native[()]
         add("array-npscalar", lambda: ir.Tensor(sc, dtype=d), {"k": "array", "d": code, "dims": dims, "elems": units_of(native)})
     if is_int(nm) and n <= 8:
@@ -626,6 +644,10 @@ def build_reprs(ir, d, dims, xs, idx, workdir, torch_ok, item_extra=None):
             add("packed-u16", lambda: ir.PackedTensor(pk16, d, shape=dims), {"k": "packed", "d": code, "dims": dims, "raw": list(rb)})
         pk8 = pk.view(np.int8)
         add("packed-int8", lambda: ir.PackedTensor(pk8, d, shape=ir.Shape(dims)), {"k": "packed", "d": code, "dims": dims, "raw": list(rb)})
+        if len(rb) >= 2 and len(rb) % 2 == 0:
+            # the constructor only checks the byte count: a 2-D packed array is accepted (finding D386: numpy() raised)
+            pk2d = pk.reshape(2, len(rb) // 2)
+            add("packed2d", lambda: ir.PackedTensor(pk2d, d, shape=dims), {"k": "packed", "d": code, "dims": dims, "raw": list(rb)})
 
     # ---- proto-backed through every legal field
     def tp_base():
@@ -666,6 +688,19 @@ def build_reprs(ir, d, dims, xs, idx, workdir, torch_ok, item_extra=None):
         tp.float_data.extend(f32_of_bits(p) for p in parts)
         if [bits_of_f32(v) for v in tp.float_data] == parts:  # signalling NaNs cannot be carried by the Python API
             protos.append(("float_data", tp))
+        else:
+            # ... but they arrive through the WIRE (third deepening round): field 4, packed, the binary32 patterns verbatim
+            body = b"".join(struct.pack("<I", p_) for p_ in parts)
+            ln, var = len(body), b""
+            while True:
+                var += bytes([(ln & 0x7F) | (0x80 if ln > 0x7F else 0)])
+                ln >>= 7
+                if not ln:
+                    break
+            tp = tp_base()
+            tp.MergeFromString(b"\x22" + var + body)
+            if [bits_of_f32(v) for v in tp.float_data] == parts:
+                protos.append(("float_data-wire", tp))
     if nm in ("DOUBLE", "COMPLEX128"):
         parts = xs if nm == "DOUBLE" else [p for x in xs for p in (x & M64, x >> 64)]
         tp = tp_base()
@@ -770,9 +805,24 @@ def build_reprs(ir, d, dims, xs, idx, workdir, torch_ok, item_extra=None):
                 add(vname, (lambda view=view: tensor_adapters.TorchTensor(view)), vm)
                 if vname == "torch-offset":
                     add("ir.tensor(torch-offset)", (lambda view=view: ir.tensor(view)), vm)
-            if len(dims) == 2:
+            if len(dims) == 2 and not noncanon_bool:
                 ttT = conv(torch.from_numpy(np.asfortranarray(base_np)))  # same logical content, column-major memory
                 add("torch-strided", lambda: tensor_adapters.TorchTensor(ttT), tm)
+            # lazy conjugate / negative views (finding D385: tobytes() / tofile() read the memory and ignored the bits
+            # while numpy() resolves them): the memory holds the value with the sign of the imaginary part (resp. of
+            # the number) flipped, the view's logical content is xs
+            if nm in ("COMPLEX64", "COMPLEX128"):
+                flipped = [int(x) ^ (1 << (bw - 1)) for x in xs]
+                ttc = torch.from_numpy(arr_from_bits(npdt, dims, flipped).copy()).conj()
+                assert ttc.is_conj()
+                add("torchconj", lambda: tensor_adapters.TorchTensor(ttc), tm)
+                add("ir.tensor(torchconj)", lambda: ir.tensor(ttc), tm)
+            if nm in ("FLOAT", "DOUBLE"):
+                cdt = np.dtype(np.complex64 if nm == "FLOAT" else np.complex128)
+                cbits = [(((97 * i + 13 + idx) * 2654435761) % (1 << bw)) | ((int(x) ^ (1 << (bw - 1))) << bw) for i, x in enumerate(xs)]
+                ttn = torch.from_numpy(arr_from_bits(cdt, dims, cbits).copy()).conj().imag
+                assert ttn.is_neg()
+                add("torchneg", lambda: tensor_adapters.TorchTensor(ttn), tm)
 
     # ---- LazyTensor around a rotating selection of the above
     base_reprs = list(out)
@@ -791,6 +841,7 @@ def build_reprs(ir, d, dims, xs, idx, workdir, torch_ok, item_extra=None):
 def kind_of(name: str) -> str:
     k = name.split(":")[0].replace("ir.tensor(torch-offset)", "torch").replace("ir.tensor(array-becompat)", "array").replace("ir.tensor(array-be)", "array")
     k = k.replace("ir.tensor(array)", "array").replace("ir.tensor(list)", "array").replace("ir.tensor(torch)", "torch")
+    k = k.replace("ir.tensor(torchconj)", "torchconj")
     k = k.replace("ir.tensor(proto)", "proto").replace("deserialize(external proto)", "external")
     for p in ("array", "packed", "torch"):
         k = re.sub(rf"{p}-[a-z0-9]+", p, k)
@@ -990,6 +1041,13 @@ def gen_logical(ctx: Ctx, ir) -> list[dict]:
     for code, (dname, bw, _npn) in SPEC.items():
         if dname == "BOOL":
             pool_rounds = [[0, 1] * 12, [1, 0, 0, 1, 1, 1, 0] * 4]
+            # third deepening round: storage bytes OTHER than 0/1 (a BOOL element is its byte in every representation;
+            # numpy reads any non-zero byte as True and keeps the byte): all 256 byte values are placed
+            allp = list(range(256))
+            rounds = (len(allp) + total - 1) // total
+            seq = (allp * (rounds * total // len(allp) + 1))[: rounds * total]
+            pool_rounds += [seq[i : i + total] for i in range(0, rounds * total, total)]
+            pool_rounds.append([rng.randrange(256) for _ in range(total)])
         elif bw <= 8:
             allp = list(range(1 << bw))
             rounds = (len(allp) + total - 1) // total
@@ -2640,6 +2698,246 @@ def check_pytensor(ctx: Ctx, ir, cases: list | None = None) -> None:
     ctx.count("pyt_total", len(cases))
 
 
+# --------------------------------------------------------------------------- ir.tensor into the 8-bit / 4-bit floats
+
+_F8_CODES = [17, 18, 19, 20, 24, 23]  # E4M3FN, E4M3FNUZ, E5M2, E5M2FNUZ, E8M0, FLOAT4E2M1
+
+
+def _f8_value_of(d: dict) -> float:
+    """The float named by the driver's decoded form (pyt.dec8)."""
+    if d["k"] == "zero":
+        return -0.0 if d["neg"] else 0.0
+    if d["k"] == "inf":
+        return -math.inf if d["neg"] else math.inf
+    if d["k"] == "nan":
+        return math.nan
+    v = math.ldexp(d["m"], d["e"])
+    return -v if d["neg"] else v
+
+
+def _f8_inputs(ctx: Ctx, code: int, decoded: list[float]) -> tuple[list[float], list[str]]:
+    """Python floats offered to ir.tensor(..., dtype=code): ALL 65,536 binary16 values, every value of the target
+    type, every midpoint between neighbouring values and its two binary64 / binary32 neighbours, the overflow
+    thresholds, the binary32 / binary64 extremes, and random binary32 / binary64 patterns."""
+    h = np.arange(65536, dtype=np.uint16).view(np.float16).astype(np.float64)
+    xs = [float(v) for v in h]
+    tags = ["f16"] * len(xs)
+    fin = sorted({abs(v) for v in decoded if math.isfinite(v)})
+    edge = []
+    top = fin[-1]
+    for a, b in zip(fin, fin[1:] + [2 * top if top else 1.0]):
+        mid = (a + b) / 2
+        for v in (a, mid, math.nextafter(mid, 0.0), math.nextafter(mid, math.inf),
+                  float(np.nextafter(np.float32(mid), np.float32(0))), float(np.nextafter(np.float32(mid), np.float32(np.inf)))):
+            edge += [v, -v]
+    lo = fin[1] if len(fin) > 1 and fin[0] == 0 else fin[0]
+    for k in range(1, 6):
+        edge += [lo / 2**k, -lo / 2**k, lo / 2**k * 1.5, lo * (1 + 2.0**-52) / 2**k]
+    for v in (top, 2 * top):
+        for f in (1.0, 1.0625, 1.125, 1.25, 1.4999999, 1.5, 1.5000001, 1.75, 1.9999999, 2.0, 3.0, 4.0):
+            edge += [v * f, -v * f]
+    edge += [math.inf, -math.inf, math.nan, -math.nan, 5e-324, -5e-324, 1.7976931348623157e308, -1.7976931348623157e308,
+             3.4028234663852886e38, 3.4028235677973366e38, 2.0**128, 1.5 * 2.0**128, 1.75 * 2.0**128, 2.0**129, 2.0**-126, 2.0**-127,
+             2.0**-127 * (1 + 2.0**-52), 2.0**-128, 2.0**-149, 2.0**-150, 1.401298464324817e-45, 2.2250738585072014e-308]
+    xs += edge
+    tags += ["edge"] * len(edge)
+    n = ctx.pick(20000, 200000)
+    r64 = [f64_of_bits(ctx.rng.getrandbits(64)) for _ in range(n)]
+    r32 = [struct.unpack("<f", struct.pack("<I", ctx.rng.getrandbits(32)))[0] for _ in range(n)]
+    # random values inside the range of the type (log-uniform magnitude, random significand)
+    span = (math.frexp(lo)[1] - 3, math.frexp(top)[1] + 2)
+    rin = [math.ldexp(1 + ctx.rng.random(), ctx.rng.randrange(span[0], span[1])) * ctx.rng.choice([1, -1]) for _ in range(n)]
+    xs += r64 + r32 + rin
+    tags += ["rand64"] * n + ["rand32"] * n + ["in-range"] * n
+    return xs, tags
+
+
+_F8_INTS = sorted(set(_PY_INTS + [0, 1, -1, 2, 3, 5, 6, 7, -6, 13, 15, 17, 240, 248, 256, 448, 464, 465, 480, 57344, 61440, 61441, 65536,
+                                   2**24 + 1, 2**25 + 2**24 - 1, 2**40 + 2**39 - 1, -(2**40 + 2**39 - 1), 2**62 + 2**61 - 1]))
+
+
+def check_f8_tables(ctx: Ctx, ir) -> None:
+    """Conversion of Python floats / ints INTO FLOAT8E4M3FN / E4M3FNUZ / E5M2 / E5M2FNUZ / E8M0 / FLOAT4E2M1 by
+    `ir.tensor(value, dtype)` (numpy + ml_dtypes do the conversion) vs `IrVerif.PyTensor.castLeaf` (`pyt.castmany`):
+    EXHAUSTIVE over all 65,536 binary16 values per type, plus every value / midpoint / threshold of the type and random
+    binary32 / binary64 patterns.  `pyt.dec8` (the value specification `decF8` behind C04_pytensor_f8_roundtrip) is
+    compared with ml_dtypes' own decoding of all 2^bits patterns.  Oracle on the real objects (model-free): the tensor
+    reports the declared dtype and shape, is byte-identical to ir.Tensor(np.array(values, dtype)), and converting the
+    value of EVERY bit pattern of the type returns that pattern (NaNs: a NaN)."""
+    import ml_dtypes  # noqa: F401
+
+    reqs, metas = [], []
+    for code in _F8_CODES:
+        name, bw, _ = SPEC[code]
+        npdt = spec_np(code)
+        mask = (1 << bw) - 1
+        cj0 = {"f8_table": True, "dtype": code}
+        try:
+            pats = np.arange(1 << bw, dtype=np.uint8)
+            decoded = [float(v) for v in pats.view(npdt).astype(np.float64)]
+        except Exception as e:
+            ctx.disagree(f"f8 {name}: ml_dtypes cannot decode the patterns", cj0, None, type(e).__name__)
+            continue
+        xs, tags = _f8_inputs(ctx, code, decoded)
+        # ---- the real code: ONE ir.tensor call over the whole list, scalars for the ints
+        try:
+            t = ir.tensor(xs, dtype=ir.DataType(code))
+            real = [int(u) & mask for u in np.asarray(t.numpy()).view(np.uint8).tolist()]
+            rbytes = t.tobytes()
+            rd, rshape = int(t.dtype), [int(x) for x in t.shape.numpy()]
+        except Exception as e:
+            ctx.disagree(f"f8 {name}: ir.tensor(list of floats, dtype) raised", cj0, "numeric", type(e).__name__)
+            continue
+        rints = []
+        for i in _F8_INTS:
+            try:
+                rints.append(int(np.asarray(ir.tensor(i, dtype=ir.DataType(code)).numpy()).view(np.uint8)) & mask)
+            except Exception as e:
+                rints.append(type(e).__name__)
+        # ---- oracle, independent of the model
+        if rd != code or rshape != [len(xs)]:
+            ctx.fail(f"pytensor.f8:declared-{name}", "ir.tensor(floats, dtype=T) does not report the declared dtype / shape", cj0)
+        try:
+            ref = ir.Tensor(np.array(xs, dtype=npdt), dtype=ir.DataType(code)).tobytes()
+            if ref != rbytes or len(rbytes) != _nbytes(len(xs), bw):
+                ctx.fail(f"pytensor.f8:agree-{name}", "ir.tensor(floats, dtype=T) differs from ir.Tensor(np.array(floats, T)) / nbytes", cj0)
+        except Exception as e:
+            ctx.disagree(f"f8 {name}: the reference tensor raised", cj0, None, type(e).__name__)
+        try:
+            back = [int(u) & mask for u in np.asarray(ir.tensor(decoded, dtype=ir.DataType(code)).numpy()).view(np.uint8).tolist()]
+            for p_, (v, b) in enumerate(zip(decoded, back)):
+                okp = (b == p_) if not math.isnan(v) else math.isnan(float(np.array([b], dtype=np.uint8).view(npdt).astype(np.float64)[0]))
+                if not okp:
+                    ctx.fail(f"pytensor.f8:roundtrip-{name}", "converting the value of a bit pattern does not give the pattern back",
+                             {**cj0, "pattern": p_, "back": b})
+                    break
+            ctx.count("f8_oracle_roundtrip_patterns", len(decoded))
+        except Exception as e:
+            ctx.disagree(f"f8 {name}: ir.tensor(values of all patterns) raised", cj0, None, type(e).__name__)
+        # round-to-nearest on the real code (model-free): for a finite input inside the range of the type the result
+        # decodes (ml_dtypes) to a value of the type nearest to the input; a tie goes to the pattern with an even last bit
+        try:
+            fin = sorted({v for v in decoded if math.isfinite(v)})
+            lo_pos = min(v for v in fin if v > 0)
+            span_lo = 2.0 * lo_pos if code == 24 else lo_pos  # E8M0: the field 0 is treated as a subnormal field (D384)
+            nbad_near = 0
+            import bisect
+            for x, r in zip(xs, real):
+                if not math.isfinite(x) or not (span_lo <= abs(x) <= fin[-1]) or (x < 0 and fin[0] >= 0):
+                    continue
+                got = decoded[r] if r < len(decoded) else math.nan
+                k_ = bisect.bisect_left(fin, x)
+                cands = [fin[j_] for j_ in (k_ - 1, k_) if 0 <= j_ < len(fin)]
+                best = min(abs(c - x) for c in cands)
+                ctx.count("f8_oracle_nearest_checked")
+                if math.isnan(got) or abs(got - x) != best or (code != 24 and len(cands) == 2 and abs(cands[0] - x) == abs(cands[1] - x) and r % 2 == 1):
+                    nbad_near += 1
+                    if nbad_near <= 2:
+                        ctx.fail(f"pytensor.f8:not-nearest-{name}", "a finite in-range float does not convert to the nearest value of the type (ties to even)",
+                                 {**cj0, "f": bits_of_f64(x), "got": r})
+        except Exception as e:
+            ctx.disagree(f"f8 {name}: the nearest-value oracle raised", cj0, None, type(e).__name__)
+        reqs.append({"m": "pyt.castmany", "d": code, "f": [bits_of_f64(x) for x in xs], "i": _F8_INTS})
+        reqs.append({"m": "pyt.dec8", "d": code})
+        metas.append((code, xs, tags, real, rints, decoded))
+    outs = lean_batch_parallel(reqs) if reqs else []
+    for j, (code, xs, tags, real, rints, decoded) in enumerate(metas):
+        name, bw, _ = SPEC[code]
+        mo, md = outs[2 * j], outs[2 * j + 1]
+        cj0 = {"f8_table": True, "dtype": code}
+        if "err" in mo or "err" in md:
+            ctx.disagree(f"f8 {name}: model rejected the request", cj0, [mo.get("err"), md.get("err")], None)
+            continue
+        # the value specification vs ml_dtypes' decoding, and the conclusion of C04_pytensor_f8_roundtrip evaluated
+        for p_, (dm, v) in enumerate(zip(md["vals"], decoded)):
+            mv = _f8_value_of(dm)
+            same = (math.isnan(mv) and math.isnan(v)) or bits_of_f64(mv) == bits_of_f64(v)
+            ctx.count(f"f8_decode_match={same}")
+            if not same:
+                ctx.disagree(f"f8 {name}: value of pattern {p_} model != ml_dtypes", {**cj0, "pattern": p_}, repr(mv), repr(v))
+        if md["roundtrip"] != md["canon"]:
+            ctx.disagree(f"f8 {name}: the driver contradicts C04_pytensor_f8_roundtrip", cj0, md["roundtrip"], md["canon"])
+        # element by element; one registered case per (type, input family, block of 256 inputs)
+        nbad = 0
+        for b0 in range(0, len(xs), 256):
+            blk = slice(b0, b0 + 256)
+            ctx.case(["f8", code, tags[b0], b0 // 256, hashlib.sha1(repr(xs[blk]).encode()).hexdigest()[:12]], nontrivial=True,
+                     sample={"ir.tensor": f"{len(xs[blk])} floats from {xs[b0]!r}", "dtype": name},
+                     representation="ir.tensor(py)", pyt_family="f8-table", pyt_dtype_arg=name, f8_inputs=tags[b0])
+            for x, r, m in zip(xs[blk], real[blk], mo["f"][blk]):
+                if r != m:
+                    nbad += 1
+                    if nbad <= 3:
+                        ctx.disagree(f"f8 {name}: float -> {name} model != implementation", {**cj0, "f": bits_of_f64(x)}, m, r)
+        for i, r, m in zip(_F8_INTS, rints, mo["i"]):
+            mm = m if isinstance(m, int) else "raised"
+            rr = r if isinstance(r, int) else "raised"
+            if isinstance(m, str) and isinstance(r, str):
+                ctx.count(f"pyt_exc_type_match={m == r}")
+            if mm != rr:
+                ctx.disagree(f"f8 {name}: int -> {name} model != implementation", {**cj0, "i": i}, m, r)
+        ctx.count("f8_table_floats", len(xs))
+        ctx.count("f8_table_ints", len(_F8_INTS))
+        ctx.count(f"f8_table_mismatches_{name}", nbad)
+        if code == 24:  # observation D384 (ml_dtypes): [1.5 * 2^128, 2^129) wraps to the pattern of 2^-127
+            ctx.count("f8_e8m0_overflow_wraps_to_0x00", sum(1 for x, r in zip(xs, real) if 1.5 * 2.0**128 <= x < 2.0**129 and r == 0))
+    ctx.exhaustive_scopes.append("ir.tensor(float, dtype=T) for the six 8-bit / 4-bit float types: ALL 65,536 binary16 values per type, every "
+                                 "value of the type, every midpoint between neighbours with its binary64 / binary32 neighbours, all 2^bits patterns decoded")
+
+
+def check_ctor_table(ctx: Ctx, ir) -> None:
+    """`ir.Tensor(array, dtype=d)`: which array dtypes `_check_numpy_representation_type` accepts for which element type,
+    EXHAUSTIVELY over the 26 numpy / ml_dtypes dtypes of the element-type table (+ text, bytes, datetime, longdouble,
+    big-endian and structured dtypes) x all 27 codes, vs `IrVerif.PyTensor.ctorAccepts` (`pyt.ctor`).  Oracle on the real
+    object (model-free; the conclusion of C04_ctor_accepts on the code): an accepted array keeps its item size, the tensor
+    reports the declared dtype, the array's shape, nbytes = ceil(size*bw/8), and tobytes() of that length."""
+    import ml_dtypes
+
+    names = [
+        "bool", "complex128", "complex64", "float16", "float32", "float64", "int16", "int32", "int64", "int8", "object", "uint16",
+        "uint32", "uint64", "uint8", "bfloat16", "float8_e4m3fn", "float8_e4m3fnuz", "float8_e5m2", "float8_e5m2fnuz",
+        "float8_e8m0fnu", "int4", "uint4", "float4_e2m1fn", "int2", "uint2"]
+    dts = [(n, np.dtype(getattr(ml_dtypes, n)) if hasattr(ml_dtypes, n) and not hasattr(np, n) else np.dtype(n)) for n in names]
+    dts += [("str", np.dtype("<U3")), ("bytes", np.dtype("S2")), ("datetime64[s]", np.dtype("datetime64[s]")),
+            ("longdouble", np.dtype(np.longdouble)), ("be-float32", np.dtype(">f4")), ("be-int16", np.dtype(">i2")),
+            ("struct-bfloat16", np.dtype([("bfloat16", np.uint16)])), ("void", np.dtype("V2"))]
+    mo = lean_batch_parallel([{"m": "pyt.ctor", "arrs": [n for n, _ in dts]}])[0]
+    if "err" in mo:
+        ctx.disagree("ctor table: model rejected the request", {"ctor_table": True}, mo, None)
+        return
+    for (n, npdt), row in zip(dts, mo["accepts"]):
+        for code, macc, msize in row:
+            cj = {"ctor_table": True, "array_dtype": n, "dtype": code}
+            try:
+                arr = np.zeros([2, 3], dtype=npdt)
+                t = ir.Tensor(arr, dtype=ir.DataType(code))
+                racc = True
+            except TypeError:
+                racc = False
+            except Exception as e:  # any other exception type is a disagreement, never a crash
+                racc = type(e).__name__
+            ctx.case(["ctor", n, code], nontrivial=True, sample={"ir.Tensor(np.zeros(.., dtype))": n, "dtype": code},
+                     representation="Tensor-ctor", ctor_accepted=str(racc), ctor_array_dtype=n if n in names else "other")
+            if racc != macc:
+                ctx.disagree("Tensor(array, dtype): accepted model != implementation", cj, macc, racc)
+                continue
+            if racc is True:
+                if n in names:  # the hypothesis of C04_ctor_accepts: a dtype of the element-type table
+                    ctx.count(f"ctor_thm_itemsize_holds={msize}")  # its conclusion, evaluated by the driver
+                if code in SPEC:
+                    bw = SPEC[code][1]
+                    try:
+                        raw = np.asarray(t.numpy())
+                        okk = (int(t.dtype) == code and [int(x) for x in t.shape.numpy()] == [2, 3] and raw.itemsize == npdt.itemsize
+                               and t.nbytes == _nbytes(6, bw) and len(t.tobytes()) == t.nbytes)
+                    except Exception:
+                        okk = False
+                    if not okk:
+                        ctx.fail(f"ctor.accepted:{n}:{SPEC[code][0]}", "an accepted array does not give a tensor with the declared dtype / "
+                                 "the array's shape / item size / nbytes", cj)
+    ctx.exhaustive_scopes.append("Tensor(array, dtype=d): every numpy / ml_dtypes dtype of the element-type table (+ 8 foreign dtypes) x all 27 codes")
+
+
 # --------------------------------------------------------------------------- run
 
 
@@ -2836,12 +3134,14 @@ def run(ctx: Ctx) -> None:
     check_external_histories(ctx, ir, [c for c in allcorpus if "hist" in c])
     check_pack_functions(ctx)
     check_pytensor(ctx, ir)
+    check_f8_tables(ctx, ir)
+    check_ctor_table(ctx, ir)
     items = gen_logical(ctx, ir) + gen_more(ctx)
     items.sort(key=lambda it: not it.get("big"))  # the large tensors first (they take longest)
     run_items(ctx, items)
     run_strided(ctx, gen_strided(ctx))
     check_strided_bounds(ctx)
-    ctx.exhaustive_scopes.append("all 2^w bit patterns of every element type with w <= 8 (BOOL: 0/1), through every representation kind")
+    ctx.exhaustive_scopes.append("all 2^w bit patterns of every element type with w <= 8 (BOOL: all 256 storage bytes), through every representation kind")
     ctx.exhaustive_scopes.append("ir.tensor(python data): every nesting of lists (<= 3 items per list, depth <= 3, <= 3 scalars, "
                                  f"<= {ctx.pick(6, 7)} nodes, inhomogeneous ones included) x every assignment of the 7 scalar kinds "
                                  "(None/bool/int/float/complex/str/bytes), without a dtype and with two dtypes each; every boundary scalar "
